@@ -1885,6 +1885,11 @@ VmResult vm_call_function(VmState *vm, uint32_t fn_idx, NanoValue *args, uint16_
                                      &ext_result, &vm->heap,
                                      ext_err, sizeof(ext_err));
             }
+            /* The arguments were popped into the trap: the call is over, drop the references the
+             * stack held (the result is always a fresh value made by the marshalling code). */
+            for (int ai = 0; ai < trap.data.extern_call.argc; ai++) {
+                vm_release(&vm->heap, trap.data.extern_call.args[ai]);
+            }
             if (!ffi_ok) {
                 return vm_error(vm, VM_ERR_NOT_IMPLEMENTED,
                                 "FFI call failed: %s", ext_err);
